@@ -142,11 +142,18 @@ pub fn lex(source: &str, source_filename: &str) -> Vec<LexedToken>
 {
 	let mut tokens = Vec::new();
 	let mut offset = 0;
-	for (i, line) in source.lines().enumerate()
+	for (i, line_with_ending) in source.split_inclusive('\n').enumerate()
 	{
+		// Strip the line ending (LF or CRLF), like `str::lines()` does.
+		let line = match line_with_ending.strip_suffix('\n')
+		{
+			Some(line) => line.strip_suffix('\r').unwrap_or(line),
+			None => line_with_ending,
+		};
 		// Syntax should remain such that each line can be lexed independently.
 		lex_line(line, source_filename, offset, 1 + i, &mut tokens);
-		offset += line.chars().count() + 1;
+		// Spans count characters, including those of the line ending.
+		offset += line_with_ending.chars().count();
 	}
 	if source.len() == 0
 	{
